@@ -25,6 +25,7 @@ file = "decoding/frame_decoder.rs"
 props = %s
 tier = "%s"
 seed_group = %d
+playback = "pattern"
 features = "%s"
 unwind = %d
 est_s = %d
